@@ -405,7 +405,7 @@ pub fn cases(tier: Tier) -> Vec<Case> {
     }
     for m in [4usize, 5] {
         for (k, idx) in multisets(27, m).into_iter().enumerate() {
-            if tier == Tier::Quick && k % 4 != 0 {
+            if tier == Tier::Quick && (k as u64 + seed()) % 4 != 0 {
                 continue;
             }
             out.push(Case { kind: "svd3".into(), a: 5, b: k % 64, idx });
